@@ -404,6 +404,15 @@ impl<'w> FnTr<'w> {
             }
             return Err(self.err(e, "method of `self` that is neither opaque (table) nor registered for translation"));
         }
+        // --- method of a flattened struct LOCAL (`mv.to_uci_string()` on a list element): another translated function ---
+        if let Some(rn) = &recv_name {
+            if let Some((RTy::Flat(sname), None)) = self.lookup(rn).map(|v| (v.ty.clone(), v.param)) {
+                if let Some(info) = self.world.fns.get(&(Some(sname.clone()), method.clone())).cloned() {
+                    return self.call_translated(e, &info, Some(&mc.receiver), &args);
+                }
+                return Err(self.err(e, &format!("method `{}` of `{}` is neither opaque (table) nor registered for translation", method, sname)));
+            }
+        }
         // --- method of a flattened struct parameter / of a value of a regenerated struct: another translated function ---
         if let Some((_, _, sname)) = self.flat_var(&mc.receiver) {
             if let Some(info) = self.world.fns.get(&(Some(sname.clone()), method.clone())).cloned() {
@@ -639,6 +648,19 @@ impl<'w> FnTr<'w> {
                 let (v, body) = self.tr_closure1(args[1], &t, Some(&RTy::Str))?;
                 if body.ty != RTy::Str || !body.pure { return Err(self.err(e, "`map_or_else(String::new, f)` with an `f` that is not a string expression that cannot panic")); }
                 let mut r = Ex::pure(format!("match {} with | some {} => {} | none => ([] : List Char)", recv.a(), v, body.text), RTy::Str);
+                r.pure = recv.pure;
+                Ok(r)
+            }
+            // `c.to_string()` on a char: the one-char string
+            (RTy::Char, "to_string") if args.is_empty() => {
+                let mut r = Ex::pure(format!("[{}]", recv.text), RTy::Str);
+                r.pure = recv.pure; r.atomic = true;
+                Ok(r)
+            }
+            // `s.trim()`: Unicode `White_Space` removed at both ends (`strTrim`, defined in the preamble of the module `UciText`)
+            (RTy::Str, "trim") if args.is_empty() => {
+                self.deps.insert("UciText".to_string());
+                let mut r = Ex::pure(format!("strTrim {}", recv.a()), RTy::Str);
                 r.pure = recv.pure;
                 Ok(r)
             }
